@@ -348,3 +348,113 @@ def oracle_section(tier, seed, which):
              'samples': [{'doc': to_sx(alld[len(alld) // 2])[:300]}],
              'rule': 'oracle %s evaluated on the implementation for every classic document <= %d nodes and %d random ones' % (which, max_size, n_rand)}
     return stats, fails
+
+
+# ---------------------------------------------------------------------------------------------
+# C05 from the document as written: the reference semantics in Python (classic algebra), used to recover which groups are flat
+
+def _groups_of(d, out):
+    k = d[0]
+    if k == 'group':
+        out.append(d)
+        _groups_of(d[1], out)
+    elif k in ('cat', 'fill'):
+        for x in d[1]:
+            _groups_of(x, out)
+    elif k in ('nest', 'hang'):
+        _groups_of(d[2], out)
+    elif k in ('ab', 'align'):
+        _groups_of(d[1], out)
+    elif k == 'ann':
+        _groups_of(d[2], out)
+    return out
+
+
+def _render_ref(d, assign):
+    """render the classic document `d` with the flat / broken choice of every group given by `assign` (indexed in the order of
+    _groups_of).  Returns (lines as [indent, text] pairs, [(group index, written indentation, line index at the group's start)]) or None
+    if the assignment lays forced-break content out flat in a way no layout does (always_break content inside a flat group stays broken;
+    a bare hardline inside a flat group is allowed to break - finding K1 prints exactly that)."""
+    lines = [[0, '']]
+    info = []
+    counter = [0]
+
+    def col():
+        return lines[-1][0] + len(lines[-1][1])
+
+    def brk(indent):
+        lines.append([max(indent, 0) if False else indent, ''])
+
+    def go(x, indent, flat):
+        k = x[0]
+        if k == 'nil':
+            return
+        if k == 't':
+            lines[-1][1] += x[1]
+        elif k == 'hl':
+            brk(indent)
+        elif k == 'line':
+            if flat:
+                lines[-1][1] += ' '
+            else:
+                brk(indent)
+        elif k == 'softline':
+            if not flat:
+                brk(indent)
+        elif k == 'cat':
+            for y in x[1]:
+                go(y, indent, flat)
+        elif k == 'nest':
+            go(x[2], indent + x[1], flat)
+        elif k == 'align':
+            go(x[1], col(), flat)
+        elif k == 'ab':
+            go(x[1], indent, False)
+        elif k == 'ann':
+            go(x[2], indent, flat)
+        elif k == 'group':
+            gi = counter[0]
+            counter[0] += 1
+            f = flat or assign[gi]
+            if not flat:
+                info.append((gi, indent, len(lines) - 1, assign[gi]))
+            go(x[1], indent, f)
+        else:
+            raise ValueError(k)
+    go(d, 0, False)
+    return lines, info
+
+
+def written_indent_overflow(d, w, rw, raw_lines):
+    """C05 with each group's indentation taken from the document as written.  `raw_lines` = the implementation's output as (indent, text)
+    pairs.  Every assignment of flat / broken to the groups that renders to exactly that output is tried; a violation is reported only if
+    each of them has a flat group whose line overflows the page or `written indentation + ribbon` (so an ambiguous document cannot raise
+    a false alarm).  Returns a description or None."""
+    import itertools
+    try:
+        groups = _groups_of(d, [])
+    except Exception:
+        return None
+    if not groups or len(groups) > 8:
+        return None
+    target = [(i, t) for i, t in raw_lines]
+    witness = None
+    for bits in itertools.product([True, False], repeat=len(groups)):
+        try:
+            lines, info = _render_ref(d, list(bits))
+        except ValueError:
+            return None          # not a classic document
+        if [(i, t) for i, t in lines] != target:
+            continue
+        bad = None
+        for gi, indent, li, is_flat in info:
+            if not is_flat:
+                continue
+            end = lines[li][0] + len(lines[li][1])
+            if end > w or end > indent + rw:
+                bad = {'group': gi, 'written_indentation': indent, 'line_end_col': end, 'width': w, 'ribbon_width': rw}
+                break
+        if bad is None:
+            return None          # some layout-consistent reading of the output satisfies the property
+        witness = bad
+    return witness
